@@ -150,6 +150,12 @@ impl StateMachine<'_> {
             self._handle_diff_header_header_line(self.source == Source::DiffUnified)?;
             self.handled_diff_header_header_line_file_pair
                 .clone_from(&self.current_file_pair);
+        } else if !self.should_handle() {
+            // With a raw file style the "---"/"+++" lines themselves, written unchanged, are
+            // this file's header: no other one is due later (at the end of plain `diff -u`
+            // input, where the style asked about would be that of a hunk line).
+            self.handled_diff_header_header_line_file_pair
+                .clone_from(&self.current_file_pair);
         }
         Ok(handled_line)
     }
